@@ -340,6 +340,29 @@ func genC08(tier string, rng *Rng) {
 		}
 		add(name, connWithCuts(first, rest, cuts, 50, rng.Pick([]int{0, 5, 50})))
 	}
+	// the application WRITES to the panel, then the panel is idle for more than 2 s, then sends again: what
+	// the writer does to the socket (deadlines!) must not shorten the unlimited idle period between
+	// frames (seed C08-9: a write timeout armed with SetDeadline also arms - or clears - the read side)
+	for _, asc := range []bool{false, true} {
+		for _, subAt := range []int{150, 1200} {
+			first := Item{Kind: "f", Data: Lit(evMsg(1, true))}
+			a, b := Item{Kind: "f", Data: Lit(evMsg(2, true))}, Item{Kind: "f", Data: Lit(evMsg(3, false))}
+			cs := ConnScript{End: "none"}
+			if asc {
+				first = Item{Kind: "ln", Data: Lit([]byte("HWC#1=Down"))}
+				a, b = Item{Kind: "ln", Data: Lit([]byte("HWC#2=Down")), Eol: 1}, Item{Kind: "ln", Data: Lit([]byte("HWC#3=Up"))}
+				cs.Items = []Item{rdy, first, a, b}
+				cs.Segs = []SegCut{{0, 4}, {60, len(first.Encode())}, {subAt + 2700, len(a.Encode())}, {subAt + 2750, len(b.Encode())}}
+			} else {
+				cs.Items = []Item{ackItem(), first, a, b}
+				cs.Segs = []SegCut{{0, 6}, {60, len(first.Encode())}, {subAt + 2700, len(a.Encode())}, {subAt + 2750, len(b.Encode())}}
+			}
+			sc := &Scenario{ID: fmt.Sprintf("write-then-idle-%v-%d", asc, subAt), Entry: "client", Conns: []ConnScript{cs}, SubStart: subAt, Cancel: subAt + 3300,
+				Subs: [][]Submission{{{Msgs: []*rwp.InboundMessage{{Command: &rwp.Command{SendPanelInfo: true}}}}, {Msgs: []*rwp.InboundMessage{{FlowMessage: 1}}, Delay: 300}}}}
+			scs = append(scs, sc)
+			hist["write-then-idle"]++
+		}
+	}
 	// several connections, the panel changing its behaviour from one to the next (matrix.go): what is
 	// delivered on a connection depends on that connection's negotiation only
 	for _, sc := range matrixScenarios(tier, false) {
